@@ -143,6 +143,17 @@ def build_target(us, t, workdir, extra_defines=()):
     base = os.path.join(workdir, '%s__%s' % (us.name, t.id))
     cfile = base + '.c'
     with open(cfile, 'w') as f:
+        # V_POSTBLK_<fn>(p, n): "p is a live heap block of exactly n bytes" in the ensures of <fn>.  For the function under
+        # enforcement this is checked as: start of a live object of exactly n bytes; where the contract replaces a call it is
+        # assumed as is_fresh (the block is the callee's own storage: the old block was separate by the caller's precondition,
+        # a new one comes from the allocator).  The switch is mechanical and per target (DESIGN 3.4).
+        for key in us.spec:
+            if key[0] == 'contract':
+                fn = key[1]
+                if fn == t.enforce:
+                    f.write('#define V_POSTBLK_%s(p, n) (__CPROVER_rw_ok((p), (n)) && __CPROVER_POINTER_OFFSET(p) == 0 && __CPROVER_OBJECT_SIZE(p) == (n))\n' % fn)
+                else:
+                    f.write('#define V_POSTBLK_%s(p, n) __CPROVER_is_fresh((p), (n))\n' % fn)
         f.write(us.c_text)
         f.write('\n/* ---- harness %s ---- */\n' % t.id)
         f.write(t.harness)
